@@ -125,3 +125,6 @@ CFG["manifest"] = dict(
           "Model hand-written, tied differentially."),
     technique="Coq proof (LTS invariant over all interleavings and pool choices, refinement to the router spec) + lockset facts + history replay and fresh-Mux oracle under -race",
 )
+
+import tables  # constant tables / literals of the current source proved equal to the model's on every run (lib/tables.py)
+CFG["secondary"] = CFG.get("secondary", []) + [tables.C05_TABLES]
